@@ -9,6 +9,7 @@ import Proofs.Sched
 import Proofs.HandlerSteps
 import Proofs.HandlerDiscipline
 import PydapModel.RowHeap
+import PydapModel.RequestRows
 import Proofs.RowHeap
 namespace Pydap.C13
 open Pydap Pydap.Sched
@@ -193,6 +194,30 @@ theorem C13_rows_noninterference (src : List PObj) (stream : List PVal) (filts :
   exact ⟨hD, fun i => (C13_noninterference _ P h0 hD σ).2.2.2 (none, i) rfl,
          fun t ht => (C13_complete_outputs _ P h0 hD σ t ht).1⟩
 
+open Pydap.RowHeap in
+/-- **The discipline theorem extended to the nested-filter step: a whole request.**  Thread `t` runs the pipeline
+    program of `C13_handler_discipline` (every store of copy / selection / wrap / projection, the emission) and then
+    evaluates its filters and maps over the records the source of the served lazy sequence holds.  For every served
+    dataset tree, every family of requests, every source of record objects of any representation, every filters /
+    maps / number of type lookups per request: the family is `Disciplined`; under ANY schedule every object of the
+    served dataset (`own = none`) and every source record object `(none, i)` keeps its initial value, and every
+    request the schedule lets finish has exactly the outputs of its solo run. -/
+theorem C13_request_noninterference (ds : Node) (hs : Served ds) (reqs : Nat → Req)
+    (src : List PObj) (stream : List PVal) (filts : Nat → List RFilt) (maps : Nat → List RMap) (peeks : Nat → Nat)
+    (h0 : Heap ReqLoc RVal) (σ : List Nat) :
+    let P := fun t => requestProgram ds (reqs t) src stream (filts t) (maps t) (peeks t) t
+    Disciplined reqOwner P ∧
+    (∀ r : Ref, r.own = none → (run (init h0 P) σ).heap (.inl r) = h0 (.inl r)) ∧
+    (∀ i, (run (init h0 P) σ).heap (.inr (none, i)) = h0 (.inr (none, i))) ∧
+    (∀ t, (P t).length ≤ σ.count t → ((run (init h0 P) σ).th t).outs = (solo h0 (P t)).2.outs) := by
+  intro P
+  have hD : Disciplined reqOwner P :=
+    disciplined_join Ref.own (fun g : GLoc => g.1) _ _ (C13_handler_discipline ds hs reqs).2.2.2
+      (rows_disciplined src stream filts maps peeks)
+  exact ⟨hD, fun r hr => (C13_noninterference _ P h0 hD σ).2.2.2 (.inl r) hr,
+         fun i => (C13_noninterference _ P h0 hD σ).2.2.2 (.inr (none, i)) rfl,
+         fun t ht => (C13_complete_outputs _ P h0 hD σ t ht).1⟩
+
 /-! non-vacuity -/
 
 section RowExamples
@@ -270,5 +295,11 @@ example :
     let wr : Step Nat Nat Nat Unit := ⟨[], [0], fun _ => .ok ([7], [])⟩
     let P : Nat → List (Step Nat Nat Nat Unit) := fun t => if t = 0 then [rd] else if t = 1 then [wr] else []
     ((run (init (fun _ => 0) P) [1, 0]).th 0).outs ≠ ((run (init (fun _ => 0) P) [0, 1]).th 0).outs := by decide
+
+open Pydap.RowHeap in
+/-- the whole-request program of the example dataset and the example source is a real program: the pipeline's
+    stores and the record stores are both in it -/
+example : (requestProgram exDs (exReqs 0) exSrc [.ref (.src 0)] [.truthy] [.nest 1 exPred, .fixNested [false, true]] 1 0).length
+    = (program exDs 0 (exReqs 0)).length + 3 := by decide +kernel
 
 end Pydap.C13
